@@ -111,6 +111,7 @@ func ruleSubmitPipeline(r *Run, rule string) {
 		return "", false
 	}
 	bad, badRet := "", ""
+	badOrder := ""
 	n := 0
 	for i := range paths {
 		p := &paths[i]
@@ -148,6 +149,7 @@ func ruleSubmitPipeline(r *Run, rule string) {
 		}
 		n++
 		pop, def, val, dfl, st := false, false, false, false, false
+		defAt, valAt := -1, -1
 		for j := 0; j < ci; j++ {
 			e := p.Ev[j]
 			switch {
@@ -155,8 +157,10 @@ func ruleSubmitPipeline(r *Run, rule string) {
 				pop = UseOfResult(fl, p, j).Verdict == "nil"
 			case IsCall(e, "coercion.Workstream.requestDefaults"):
 				def = true
+				defAt = j
 			case IsCall(e, wfKey("Validate")):
 				val = UseOfResult(fl, p, j).Verdict == "nil"
+				valAt = j
 			case e.Kind == EvCall && CalleeKey(e) == "coercion.defaulter.Defaults":
 				// inside a range over walk.Plan(plan)
 				for x := j - 1; x >= 0; x-- {
@@ -200,6 +204,11 @@ func ruleSubmitPipeline(r *Run, rule string) {
 		if !(pop && def && val && dfl && st) && bad == "" {
 			bad = "Create is reached on a path with populateRegistry ok=" + boolStr(pop) + ", requestDefaults=" + boolStr(def) + ", Validate ok=" + boolStr(val) + ", Defaults over the walked plan=" + boolStr(dfl) + ", SubmitTime stamped=" + boolStr(st)
 		}
+		// the requests get their defaults BEFORE they are shown to the plugins' ValidateReq (round-3 seed C16-5: a request
+		// that is only valid once defaulted was refused, and what got stored had never been validated)
+		if defAt >= 0 && valAt >= 0 && defAt > valAt && badOrder == "" {
+			badOrder = "Submit applies the request defaults after Validate: ValidateReq sees requests without their defaults (well-formed plans are refused), and the defaulted request that is stored was never validated"
+		}
 		// after Create: success returns plan.ID; failure returns the error
 		u := UseOfResult(fl, p, ci)
 		if ret != nil {
@@ -217,6 +226,8 @@ func ruleSubmitPipeline(r *Run, rule string) {
 		return
 	}
 	r.Check(rule, "Submit:validated-defaulted-then-created", fn.Decl.Pos(), bad == "", "%s", orOK(bad, "populateRegistry, requestDefaults, Validate ok, Defaults, SubmitTime, then Create — nothing else touches the store"))
+	r.Check(rule, "Submit:request-defaults-before-validation", fn.Decl.Pos(), badOrder == "", "%s", orOK(badOrder, "requestDefaults precedes Validate on every path"))
+	rulePopulateRegistryRejects(r, rule)
 	r.Check(rule, "Submit:result-follows-create", fn.Decl.Pos(), badRet == "", "%s", orOK(badRet, "success only after a successful Create"))
 }
 
@@ -836,4 +847,69 @@ func ruleValidateAction(r *Run, rule string) {
 		}
 		r.Check(rule, s.key, bpos, bad == "", "%s", orOK(bad, "never accepted: "+s.what))
 	}
+}
+
+// rulePopulateRegistryRejects (round-3 seed C16-6): an action that arrives with a register already set is refused, never
+// honoured. Action.validate looks its plugin up through the action's own register, so a foreign or stale one would
+// decide whether the plan is well formed: Submit would admit plans naming plugins this Workstream does not have.
+// On every path of populateRegistry a branch that found HasRegister() true leads to a return of a non-nil error before
+// anything else happens to the plan.
+func rulePopulateRegistryRejects(r *Run, rule string) {
+	fn := r.fnByKey(rule, "coercion.Workstream.populateRegistry")
+	if fn == nil {
+		return
+	}
+	fl, paths, ok := r.flowPaths(rule, fn)
+	if !ok {
+		return
+	}
+	info := fl.Info
+	all := append(append([]Path{}, paths...), fl.Truncated()...)
+	n := 0
+	bad := ""
+	var bpos token.Pos = fn.Decl.Pos()
+	for i := range all {
+		p := &all[i]
+		for j, e := range p.Ev {
+			if e.Kind != EvBranch || e.Cond == nil || e.Depth != 0 {
+				continue
+			}
+			has := false
+			for _, l := range EventLiterals(info, e) {
+				if c, ok := ast.Unparen(l.X).(*ast.CallExpr); ok {
+					if sel, ok := ast.Unparen(c.Fun).(*ast.SelectorExpr); ok && sel.Sel.Name == "HasRegister" && l.Val == "true" && l.Eq {
+						has = true
+					}
+				}
+			}
+			if !has {
+				continue
+			}
+			n++
+			rejected := false
+			for x := j + 1; x < len(p.Ev); x++ {
+				ev := p.Ev[x]
+				if ev.Depth > 0 || ev.Deferred {
+					continue
+				}
+				if ev.Kind == EvReturn {
+					if len(ev.Rhs) == 1 && ValueKey(info, ev.Rhs[0]) != "nil" {
+						rejected = true
+					}
+					break
+				}
+				if ev.Kind == EvRange || (ev.Kind == EvCall && strings.HasSuffix(CalleeKey(ev), ".SetRegister")) {
+					break
+				}
+			}
+			if !rejected && bad == "" {
+				bad, bpos = "an action whose register is already set is not refused (the path goes on after HasRegister() answered true): the foreign register decides what Validate accepts for this action", e.Pos
+			}
+		}
+	}
+	if n == 0 {
+		r.Unresolved(rule, "populateRegistry tests HasRegister()")
+		return
+	}
+	r.Check(rule, "populateRegistry:preset-register-is-refused", bpos, bad == "", "%s", orOK(bad, "HasRegister() ⇒ error returned at once"))
 }
